@@ -466,7 +466,12 @@ class Program:
                     elif j["kind"] == "fn":
                         fn_jsons[j["path"]] = (j, crate)
                     records.append((j, crate))
+        self.renamed = {}
         if canonical:
+            # renamed functions / fields carry their reference names again (sa/canon.py)
+            from . import canon
+            self.renamed = canon.run(records)
+            fn_jsons = {j["path"]: (j, c) for j, c in records if j["kind"] == "fn"}
             # functions that are not in the reference inventory (helpers extracted later) are spliced into their callers
             from . import inline
             self.inlined = inline.run(fn_jsons)
